@@ -654,3 +654,182 @@ Proof.
   - exists ne. simpl. rewrite <- app_assoc. reflexivity.
   - apply dropge_spec.
 Qed.
+
+(* ------------------------------------------------------------------------------------- *)
+(* 5. order: within one Stack the fault ticks appear in the order in which they fired      *)
+
+(* reading from the newest entry: strictly decreasing ticks, all below [b] *)
+Fixpoint desc_below (b : nat) (l : list nat) : Prop :=
+  match l with [] => True | x :: r => x < b /\ desc_below x r end.
+
+Lemma desc_below_mono b b' l : b <= b' -> desc_below b l -> desc_below b' l.
+Proof. destruct l; simpl; [auto|]. intros L [H1 H2]. split; [lia|assumption]. Qed.
+
+Definition ord (errs : list err) (t : nat) : Prop := desc_below t (efaults errs).
+(* [step errs t errs' t'] : ticks advance and the order invariant is carried along *)
+Definition step (errs : list err) (t : nat) (errs' : list err) (t' : nat) : Prop :=
+  t <= t' /\ (ord errs t -> ord errs' t').
+
+Lemma step_refl errs t : step errs t errs t.
+Proof. split; [lia|auto]. Qed.
+Lemma step_trans e0 t0 e1 t1 e2 t2 : step e0 t0 e1 t1 -> step e1 t1 e2 t2 -> step e0 t0 e2 t2.
+Proof. intros [L1 H1] [L2 H2]. split; [lia|auto]. Qed.
+Lemma step_tick errs t : step errs t errs (S t).
+Proof. split; [lia|]. apply desc_below_mono. lia. Qed.
+Lemma step_fault errs t : step errs t (EFault t :: errs) (S t).
+Proof. split; [lia|]. unfold ord. simpl. intros H. split; [lia|assumption]. Qed.
+Lemma step_nf errs t e : not_fault e -> step errs t (e :: errs) t.
+Proof. intros N. split; [lia|]. unfold ord. destruct e; simpl in *; tauto. Qed.
+Lemma step_tick_nf errs t e : not_fault e -> step errs t (e :: errs) (S t).
+Proof. intros N. eapply step_trans; [apply step_nf; eassumption|apply step_tick]. Qed.
+Lemma step_mono errs t t' : t <= t' -> step errs t errs t'.
+Proof. intros L. split; [assumption|]. apply desc_below_mono. assumption. Qed.
+
+Lemma iter_step_ord c o errs : forall l raises t k e t',
+  iter_steps c o l raises t = (k, e, t') ->
+  step errs t (match e with Some e => e :: errs | None => errs end) t'.
+Proof.
+  induction l as [|i l IH]; intros raises t k e t' H; simpl in H.
+  - destruct (fault c t); inversion H; subst; [apply step_fault|].
+    destruct raises; [apply step_tick_nf; exact I|apply step_tick].
+  - destruct (fault c t); [inversion H; subst; apply step_fault|].
+    destruct (iter_steps c o l raises (S t)) as [[k1 e1] t1] eqn:E. inversion H; subst.
+    eapply step_trans; [apply step_tick|eapply IH; eassumption].
+Qed.
+
+Lemma flatten_ord fuel : forall cnt c tu te errs t te' errs' t',
+  flatten fuel cnt c tu te errs t = FlOk te' errs' t' -> step errs t errs' t'.
+Proof.
+  induction fuel as [|fuel IH]; intros cnt c tu te errs t te' errs' t' H; simpl in H; [discriminate|].
+  destruct tu as [|[[org cur] d] tu'].
+  { inversion H; subst. apply step_refl. }
+  destruct cur; try (eapply IH; eassumption).
+  - destruct (fault c t).
+    { destruct (g_unwrap (grd c)); [|discriminate].
+      eapply step_trans; [apply step_fault|eapply IH; eassumption]. }
+    destruct (unwrap c o) eqn:Eu;
+      try (destruct (uguard c <? S cnt));
+      try (destruct (g_unwrap (grd c)); [|discriminate]);
+      try ((eapply step_trans; [|eapply IH; eassumption]); first [apply step_tick_nf; exact I|apply step_tick]; fail).
+    match type of H with context [iter_steps c o ?l ?r ?tt] => destruct (iter_steps c o l r tt) as [[k er] t2] eqn:Ei end.
+    pose proof (iter_step_ord c o errs _ _ _ _ _ _ Ei) as Ti.
+    destruct er; try (destruct (g_iter (grd c)); [|discriminate]);
+      (eapply step_trans; [apply step_tick|]; eapply step_trans; [apply Ti|eapply IH; eassumption]).
+  - destruct (fault c t).
+    { destruct (g_unwrap (grd c)); [|discriminate].
+      eapply step_trans; [apply step_fault|eapply IH; eassumption]. }
+    destruct (uguard c <? S cnt); try (destruct (g_unwrap (grd c)); [|discriminate]);
+      (eapply step_trans; [|eapply IH; eassumption]); first [apply step_tick_nf; exact I|apply step_tick].
+Qed.
+
+Definition runner_mono (runner : item -> nat -> outcome * nat) : Prop :=
+  forall k t o t', runner k t = (o, t') -> t <= t'.
+
+Lemma run_kids_mono runner : runner_mono runner -> forall kids acc t ks ob t',
+  run_kids runner kids acc t = (ks, ob, t') -> t <= t'.
+Proof.
+  intros Hm. induction kids as [|k r IH]; intros acc t ks ob t' H; simpl in H.
+  - inversion H; subst. lia.
+  - destruct (runner k t) as [o t1] eqn:E. apply Hm in E.
+    destruct o; [apply IH in H; lia| |]; inversion H; subst; assumption.
+Qed.
+
+Lemma fill_all_ord c runner : runner_mono runner -> runner_total runner -> g_fill (grd c) = true ->
+  forall l acc errs t cx errs' t' ob,
+  fill_all c runner l acc errs t = (cx, errs', t', ob) -> step errs t errs' t'.
+Proof.
+  intros Hm Ht Hg. induction l as [|cid r IH]; intros acc errs t cx errs' t' ob H; simpl in H.
+  { inversion H; subst. apply step_refl. }
+  rewrite Hg in H.
+  destruct (fault c t).
+  { eapply step_trans; [apply step_fault|eapply IH; eassumption]. }
+  destruct (fill c cid).
+  2:{ (eapply step_trans; [|eapply IH; eassumption]); apply step_tick_nf; exact I. }
+  destruct (run_kids runner kids [] (S t)) as [[ks ob1] t1] eqn:Ek.
+  pose proof (run_kids_mono runner Hm _ _ _ _ _ _ Ek) as L1.
+  destruct ob1 as [b|].
+  - apply run_kids_from_runner in Ek. destruct Ek as (k0 & t0 & E0 & Nok).
+    destruct b.
+    + exfalso. eapply Nok. reflexivity.
+    + exfalso. eapply (Ht k0 t0 e). rewrite E0. reflexivity.
+    + inversion H; subst. apply step_mono. lia.
+  - eapply step_trans; [apply (step_mono errs t t1); lia|eapply IH; eassumption].
+Qed.
+
+Lemma ctx_step_ord c runner : runner_mono runner -> runner_total runner ->
+  g_fill (grd c) = true -> g_ctx (grd c) = true ->
+  forall f errs t cx errs' t' ob,
+  ctx_step c runner f errs t = (cx, errs', t', ob) -> step errs t errs' t'.
+Proof.
+  intros Hm Ht Hf Hc f errs t cx errs' t' ob H. unfold ctx_step in H. rewrite Hc in H.
+  destruct (negb (with_ctx c)); [inversion H; subst; apply step_refl|].
+  destruct (fault c t); [inversion H; subst; apply step_fault|].
+  destruct (ctxs c f); [|inversion H; subst; apply step_tick_nf; exact I].
+  eapply step_trans; [apply step_tick|eapply fill_all_ord; eassumption].
+Qed.
+
+Lemma elab_step_ord c f errs t r errs' h t' oe : g_elab (grd c) = true ->
+  elab_step c f errs t = (r, errs', h, t', oe) -> step errs t errs' t'.
+Proof.
+  intros Hg H. unfold elab_step in H. rewrite Hg in H.
+  destruct (fault c t); [inversion H; subst; apply step_fault|].
+  destruct (elab c f); inversion H; subst; first [apply step_tick|apply step_tick_nf; exact I].
+Qed.
+
+Lemma efaults_rev l : efaults (rev l) = rev (efaults l).
+Proof.
+  induction l as [|e l IH]; simpl; [reflexivity|]. rewrite efaults_app, IH.
+  destruct e; simpl; try apply app_nil_r; reflexivity.
+Qed.
+
+Lemma run_ord fuel : forall first c tu te errs out t o t',
+  grd c = all_guards ->
+  run fuel first c tu te errs out t = (o, t') ->
+  t <= t' /\ forall frs lf es, o = Ok (Stack frs lf es) -> ord errs t -> desc_below t' (rev (efaults es)).
+Proof.
+  induction fuel as [|fuel IH]; intros first c tu te errs out t o t' Hg H.
+  { inversion H; subst. split; [lia|discriminate]. }
+  destruct (all_guards_fields c Hg) as (Hu & Hi & Hc & Hf & He).
+  cbn [run] in H.
+  destruct (flatten (S fuel) 0 c tu (rev te) errs t) as [te1 errs1 t1|e1|] eqn:Efl;
+    [|inversion H; subst; split; [lia|discriminate]|inversion H; subst; split; [lia|discriminate]].
+  pose proof (flatten_ord _ _ _ _ _ _ _ _ _ _ Efl) as S1.
+  assert (Hfin : forall errsN tN outN lf0, step errs t errsN tN ->
+            (Ok (Stack (rev outN) lf0 (rev errsN)), tN) = (o, t') ->
+            t <= t' /\ forall frs lf es, o = Ok (Stack frs lf es) -> ord errs t -> desc_below t' (rev (efaults es))).
+  { intros errsN tN outN lf0 [L S] E. inversion E; subst. split; [assumption|].
+    intros frs lf es E2 Ho. inversion E2; subst. rewrite efaults_rev, rev_involutive. apply S. assumption. }
+  destruct te1 as [|[q d] rest]; [eapply Hfin; eassumption|].
+  destruct q; try (eapply Hfin; eassumption).
+  set (runner := fun k t => run fuel false c [(better_origin c (q_of k) None, q_of k, 0)] [] [] [] t) in H.
+  assert (Hm : runner_mono runner) by (intros k t0 o0 t0' E; apply IH in E; [tauto|assumption]).
+  assert (Ht : runner_total runner) by (intros k t0 e0; apply run_total; assumption).
+  destruct (ctx_step c runner f errs1 t1) as [[[cx errs2] t2] ob] eqn:Ecx.
+  pose proof (ctx_step_ord c runner Hm Ht Hf Hc _ _ _ _ _ _ _ Ecx) as S2.
+  destruct ob as [bad|].
+  { inversion H; subst. split; [destruct S1, S2; lia|].
+    intros frs lf es E. exfalso. eapply ctx_step_bad_not_ok; eauto. }
+  destruct (elab_step c f errs2 t2) as [[[[r errs3] hide] t3] oe] eqn:Eel.
+  pose proof (elab_step_ord _ _ _ _ _ _ _ _ _ He Eel) as S3.
+  destruct oe as [e3|]; [exfalso; eapply elab_step_total; eauto|].
+  assert (S : step errs t errs3 t3) by (eapply step_trans; [exact S1|eapply step_trans; eassumption]).
+  assert (Hrec : forall first' tu' te' outN,
+            run fuel first' c tu' te' errs3 outN t3 = (o, t') ->
+            t <= t' /\ forall frs lf es, o = Ok (Stack frs lf es) -> ord errs t -> desc_below t' (rev (efaults es))).
+  { intros first' tu' te' outN E. apply IH in E; [|assumption]. destruct E as [L E]. destruct S as [LS S].
+    split; [lia|]. intros frs lf es E2 Ho. eapply E; [eassumption|]. apply S. assumption. }
+  destruct first; [eapply Hfin; eassumption|].
+  destruct r as [|l|[i| |]|]; try (eapply Hrec; eassumption).
+  destruct (next_of rest) as [[| | |]|]; eapply Hrec; eassumption.
+Qed.
+
+Lemma extract_errors_ordered c root frs lf es :
+  grd c = src_guards -> extract c root = Ok (Stack frs lf es) ->
+  exists t', snd (extract_t c root 0) = t' /\ desc_below t' (rev (efaults es)).
+Proof.
+  intros Hg. unfold extract, extract_t.
+  generalize (run_ord default_fuel false c (root_q c root) [] [] [] 0).
+  generalize (run default_fuel false c (root_q c root) [] [] [] 0).
+  intros [o t'] G H. cbn [fst snd] in *. subst o. exists t'. split; [reflexivity|].
+  destruct (G _ _ (eq_trans Hg src_guards_all) eq_refl) as [_ G2]. eapply G2; [reflexivity|exact I].
+Qed.
